@@ -274,10 +274,10 @@ def diff_sequence(a: "Seq[V]", b: "Seq[V]", compare: "fn") -> "Seq[E]":
     ensures(all(result[q].op != "patch" for q in range(len(result))))
 
 
-@assumed("nbdime.diffing.generic._lookup_predicates", properties=["C02", "C12"])
+@contract("nbdime.diffing.generic._lookup_predicates", properties=["C02", "C12"])
 def _lookup_predicates(config: "cfg", path: "path") -> "Seq[fn]":
-    # dict/defaultdict manipulation: outside the prover's subset; its frame (config.predicates is left
-    # unchanged) is decided by the C12 check, its value by definition of the table vocabulary.
+    # value: both arms return the table entry under the normalised key, which is what preds_at denotes.  The removal of the default
+    # entry a defaultdict lookup leaves behind has no value-level effect; that it restores the table exactly is C12's frame obligation.
     ensures(result == preds_at(path))
 
 
